@@ -27,7 +27,15 @@ static shared_counters *sh = new(mmap(0,sizeof(shared_counters),PROT_READ|PROT_W
 #define vcounter (sh->vcounter)
 #define progress (sh->progress)
 
-static std::string nm(int i) { char b[32]; snprintf(b,sizeof(b),"n%d",i); return b; }
+// VERIF_COLLIDE=1: key / trigger names that all have the same hash value (ELF hash of hash_map.h), so they share a
+// bucket chain whatever the table size is
+static bool collide = getenv("VERIF_COLLIDE")!=0;
+static std::string nm(int i)
+{
+	static char const *same_hash[]={"aq","ba","cQ","dA","e1"};
+	if(collide && i>=1 && i<=5) return same_hash[i-1];
+	char b[32]; snprintf(b,sizeof(b),"n%d",i); return b;
+}
 static std::string mkval(long id)
 {
 	// every 8-byte word of the value encodes the id: a torn copy is visible
